@@ -160,3 +160,58 @@ def _(c):
     c.allow_mutation = lambda obj, n: "'item'" in str(n)  # PyodaConstants.UNIX_EPOCH may fill the ISO year cache (transparent: C13)
     c.returns(lambda a, r: V.is_instant_of(r, a.t), when=lambda a: V.inst_in_range(a.t))
     c.raises(*RANGE_ERR, when=lambda a: Not(V.inst_in_range(a.t)))
+
+
+# ------------------------------------------------------------------------------------------ ZonedClock: the derived views
+from specs import cal_abs as CA  # noqa: E402
+
+from .c01_generic import ld_dse, ld_valid_in  # noqa: E402
+from .gens import AbsCalG  # noqa: E402
+
+
+class _ZonedClockAbsG(Obj):
+    """ZonedClock over a FakeClock, the UTC zone and a SYMBOLIC calendar"""
+
+    def __init__(self):
+        pass
+
+    def make(self, name, b):
+        from pyvc.values import SObj
+        from pyoda_time import DateTimeZone
+        from pyoda_time._zoned_clock import ZonedClock
+
+        return SObj(ZonedClock, {"_ZonedClock__clock": FakeClockG().make(name + ".clock", b), "_ZonedClock__zone": DateTimeZone.utc, "_ZonedClock__calendar": b.named["cal"].system}, owner=-1, tag=name)
+
+
+def _zc_setup(eng):
+    _setup(eng)
+    from specs import cal_abs
+
+    cal_abs.install(eng)
+
+
+def _mk_view(meth, post):
+    @contract(ZC + "." + meth, "C19", name=f"ZonedClock.{meth}: one reading of the wrapped clock, shown in the clock's zone (UTC here) and in the clock's OWN calendar")
+    def _(c):
+        from .gens import IsoAbsCalG
+
+        # the ISO calendar is present too (as an abstract calendar of ordinal 0): a view that falls back to the default
+        # calendar instead of the clock's own is then a decided violation, not an unsupported lookup
+        c.ghost("cal", AbsCalG()).ghost("iso", IsoAbsCalG("iso")).arg("self", _ZonedClockAbsG())
+        c.requires(lambda a: a.cal.ordinal != 0)
+        c.setup = _zc_setup
+        c.allow_mutation = only_clock_state
+        c.crosscheck = 0
+        c.timeout_s = 120
+        inner = lambda a: V.fld(a.self, "_ZonedClock__clock")  # noqa: E731
+        t = lambda a: V.inst_ns(now(inner(a)))  # noqa: E731
+        nxt = lambda a: t(a) + V.ns(aa(inner(a)))  # noqa: E731
+        day_ok = lambda a: And(t(a) // V.NPD >= CA.soy(a.cal.cid, a.cal.min_year), t(a) // V.NPD <= CA.soy(a.cal.cid, a.cal.max_year + 1) - 1)  # noqa: E731
+        c.returns(lambda a, r, W: And(post(a, r, t(a)), V.is_instant_of(W(inner(a), "_FakeClock__now"), nxt(a))), when=lambda a: And(V.inst_in_range(nxt(a)), day_ok(a)))
+        c.raises(*RANGE_ERR, when=lambda a: Or(Not(V.inst_in_range(nxt(a))), Not(day_ok(a))))
+
+
+_mk_view("get_current_date", lambda a, r, t: And(ld_valid_in(a.cal, r), ld_dse(a, r) == t // V.NPD))
+_mk_view("get_curent_time_of_day", lambda a, r, t: V.lt_nanos(r) == t % V.NPD)
+_mk_view("get_current_local_date_time", lambda a, r, t: And(ld_valid_in(a.cal, V.ldt_date(r)), ld_dse(a, V.ldt_date(r)) == t // V.NPD, V.lt_nanos(V.ldt_time(r)) == t % V.NPD))
+_mk_view("get_current_offset_date_time", lambda a, r, t: And(ld_valid_in(a.cal, V.odt_date(r)), ld_dse(a, V.odt_date(r)) == t // V.NPD, V.ot_n(V.odt_ot(r)) == t % V.NPD, V.ot_off(V.odt_ot(r)) == 0))
